@@ -2029,8 +2029,11 @@ class Compiler:
     def _get_translation_identifiers(self, name):
         assert self._translations
         prefix = str(id(self._translations[-1])).replace('-', '_')
-        stream = identifier("stream_%s" % prefix, name)
-        append = identifier("append_%s" % prefix, name)
+        # (names that differ only in characters which cannot be part of an
+        # identifier - "a-b" and "a_b" - are told apart by their position)
+        index = list(self._translations[-1]).index(name)
+        stream = identifier("stream_%s_%d" % (prefix, index), name)
+        append = identifier("append_%s_%d" % (prefix, index), name)
         return stream, append
 
     def _enter_assignment(self, names):
